@@ -28,8 +28,8 @@ Objs     == IF Mode = "small" THEN {"o1"} ELSE {"o1", "o2"}
 Rels     == IF Mode = "small" THEN {"r1"} ELSE {"r1", ""}
 Subs     == IF Mode = "small"
             THEN {<<"id", "u1">>, <<"set", "n1", "o1", "r1">>}
-            ELSE {<<"id", "u1">>, <<"id", "o1">>, <<"set", "n1", "o1", "r1">>, <<"set", "n2", "o2", "">>,
-                  <<"set", "nope", "o2", "r1">>}
+            ELSE {<<"id", "u1">>, <<"id", "o1">>, <<"set", "n1", "o1", "r1">>, <<"set", "n1", "o1", "">>, <<"set", "n2", "o1", "r1">>,
+                  <<"set", "n2", "o2", "">>, <<"set", "nope", "o2", "r1">>}   \* subject sets that differ in exactly one field
 NoSub    == <<"none">>
 TupleNs  == IF Mode = "small" THEN {"n1", "nope"} ELSE AllNs
 Tuples   == TupleNs \X Objs \X Rels \X (Subs \cup {NoSub})
